@@ -466,7 +466,7 @@ func (router_info *RouterInfo) RouterCapabilities() string {
 		return ""
 	}
 	// return string(router_info.options.Values().Get(str))
-	caps := string(router_info.options.Values().Get(str))
+	caps := string(router_info.Options().Values().Get(str))
 	log.WithField("capabilities", caps).Debug("Retrieved RouterCapabilities")
 	return caps
 }
@@ -480,7 +480,7 @@ func (router_info *RouterInfo) RouterVersion() string {
 		return ""
 	}
 	// return string(router_info.options.Values().Get(str))
-	version := string(router_info.options.Values().Get(str))
+	version := string(router_info.Options().Values().Get(str))
 	log.WithField("version", version).Debug("Retrieved RouterVersion")
 	return version
 }
